@@ -12,7 +12,6 @@
   cancellation of its context) → sending the response (`stream.send`: ends with the response written
   — which needs the client to read it —, with the client gone, or aborted through the server
   context; the receive context plays no role there) → idle again … → leaving (deferred terminate
-  hook) → closing (`stream.Close`, `wg.Done`) → its reader / writer still winding down → ended.
   hook) → closing (`stream.Close`, which since aa935a6 waits for reader and writer) → finishing
   (`wg.Done`) → ended. `Params.closeWaits = false` is the code before aa935a6: closing (`stream.Close`
   does not wait, `wg.Done`) → winding (reader / writer still on their way out) → ended.
